@@ -137,6 +137,8 @@ class World:
         self.probes = {}
         self.world_members = tuple(range(nranks))
         self.shared = {}                       # scratch shared by the ranks' shims (e.g. h5 files)
+        self.waiters = {}                      # rank -> predicate (blocked point-to-point calls)
+        self.mailbox = {}                      # (cid, dst) -> list of pending messages
         perm = list(range(nranks))
         self._shuffle(perm)
         if sched.get('priority_perm') is not None and len(sched['priority_perm']) == nranks:
@@ -399,6 +401,32 @@ class World:
             return False
         return False
 
+    # ---- generic blocking (point-to-point matching) ---------------------------
+    def wait_until(self, me, predicate, desc):
+        """Block rank `me` until predicate() is true.  Predicates are re-evaluated
+        whenever another rank calls notify()."""
+        self.event(me, 'p2p', desc)
+        if predicate():
+            self.notify(me)
+            self._make_ready(me, self.T[me])
+            self._park(me)
+            return
+        self.waiters[me] = predicate
+        self.state[me] = 'blocked'
+        self.pending[me] = tuple(desc)
+        self._park(me)
+
+    def notify(self, me):
+        progress = True
+        while progress:                   # a satisfied receive may in turn satisfy a synchronous send
+            progress = False
+            for r in sorted(self.waiters):
+                pred = self.waiters.get(r)
+                if pred is not None and pred():
+                    self.waiters.pop(r, None)
+                    self._make_ready(r, self.T[me] + self.latency)
+                    progress = True
+
     def new_cid(self):
         c = self.next_cid
         self.next_cid += 1
@@ -451,6 +479,9 @@ class World:
                 r0 = bad[0]
                 self.error = Violation('exception', dict(rank=r0, type=self.excs[r0][0],
                                                          msg=self.excs[r0][1], ranks=bad))
+            elif any(self.mailbox.values()):
+                self.error = Violation('unmatched-message', dict(
+                    messages=[(k, [(m['src'], m['tag']) for m in v]) for k, v in sorted(self.mailbox.items()) if v]))
             elif self.records:
                 self.error = Violation('unmatched-collective', dict(
                     records=[(k, self.records[k].op, sorted(self.records[k].payload))
